@@ -239,6 +239,52 @@ def _inline_helper_calls(body: list[ast.stmt], methods: dict[str, ast.FunctionDe
     return out
 
 
+def _unrollable(st: ast.For) -> bool:
+    """A for-loop over a non-empty tuple/list display whose target is a name or a flat tuple of names matched by every
+    element, without else / break / continue, whose body does not rebind the target names."""
+    if not isinstance(st.iter, (ast.Tuple, ast.List)) or not st.iter.elts or st.orelse or len(st.iter.elts) > 16:
+        return False
+    if any(isinstance(e, ast.Starred) for e in st.iter.elts):
+        return False
+    if isinstance(st.target, ast.Name):
+        names = [st.target.id]
+    elif isinstance(st.target, (ast.Tuple, ast.List)) and all(isinstance(t, ast.Name) for t in st.target.elts):
+        names = [t.id for t in st.target.elts]
+        if not all(isinstance(e, (ast.Tuple, ast.List)) and len(e.elts) == len(names)
+                   and not any(isinstance(x, ast.Starred) for x in e.elts) for e in st.iter.elts):
+            return False
+    else:
+        return False
+    for b in st.body:
+        for n in ast.walk(b):
+            if isinstance(n, (ast.Break, ast.Continue, ast.FunctionDef, ast.Lambda, ast.ClassDef)):
+                return False
+            if isinstance(n, ast.Name) and n.id in names and not isinstance(n.ctx, ast.Load):
+                return False
+    return True
+
+
+def _bind_loop_target(st: ast.For, elt: ast.AST) -> list[ast.stmt]:
+    if isinstance(st.target, ast.Name):
+        amap = {st.target.id: elt}
+    else:
+        amap = {t.id: e for t, e in zip(st.target.elts, elt.elts)}
+
+    class Sub(ast.NodeTransformer):
+        def visit_Name(self, node: ast.Name):
+            if node.id in amap:
+                new = copy.deepcopy(amap[node.id])
+                for x in ast.walk(new):
+                    if hasattr(x, 'lineno'):
+                        x.lineno = node.lineno
+                return new
+            return node
+    body = [Sub().visit(copy.deepcopy(b)) for b in st.body]
+    for b in body:
+        ast.fix_missing_locations(b)
+    return body
+
+
 class _Module:
     def __init__(self) -> None:
         self.tree = ast.parse(src_text('bsp.py'))
@@ -415,6 +461,12 @@ class _Module:
                     early += (f'after-return-if ({test})',)
                 elif _has_return(st.orelse) and not _has_return(st.body):
                     early += (f'after-return-if (not ({test}))',)
+            elif isinstance(st, ast.For) and _unrollable(st):
+                # `for lump, buf in ((BSP_LUMPS.A, a), (BSP_LUMPS.B, b)): self.lumps[lump].data = ...`: a loop over a
+                # non-empty display is its body once per element, executed unconditionally
+                self._expr(st.iter, c, out, visit_func, where)
+                for elt in st.iter.elts:
+                    self._walk_body(_bind_loop_target(st, elt), c, out, visit_func, where)
             elif isinstance(st, (ast.For, ast.While)):
                 if isinstance(st, ast.For):
                     self._expr(st.iter, c, out, visit_func, where)
